@@ -885,11 +885,19 @@ package tally
 
 //@ func (*scopeRegistry).purgeIfRootClosed
 //@   property C08, C07
-//@   trusted
 //@   emits
 //@   requires registryWF(r)
 //@   requires @only_a_pass_that_started_after_close_may_purge r.root.closed ==> startedClosed[r]
+//@   assume @every_registered_scope_was_reported_by_the_purging_pass forall x *scope :: flushed[x] || (x.reporter == nil && x.cachedReporter == nil)
+//@   assume @registered_root_flagged_scopes_are_the_closed_root forall x *scope :: x.root ==> x.closed
+//@   assume @done_channels_are_closed_only_by_close forall x *scope :: !x.closed ==> !closed(x.done)
 //@   modifies if r.root.closed : *
+//@   ensures @an_open_root_is_left_alone !old(r.root.closed) ==> quiet()
+//@   loop 1 invariant @idx 0 <= rangeindex+1 && rangeindex+1 <= len(r.subscopes) && registryWF(r) && r.root.closed
+//@   loop 1 invariant @root_flagged_scopes_stay_closed forall x *scope :: x.root ==> x.closed
+//@   loop 2 invariant @bucket_stays_a_map_of_scopes subscopeBucket != nil && subscopeBucket.s != nil && (forall k string :: k in subscopeBucket.s ==> subscopeBucket.s[k] != nil && scopeWF(subscopeBucket.s[k])) && registryWF(r) && r.root.closed && 0 <= rangeindex && rangeindex < len(r.subscopes)
+//@   loop 2 invariant @root_flagged_scopes_stay_closed forall x *scope :: x.root ==> x.closed
+//@   loop 2 invariant @only_closed_scopes_were_removed forall k string :: acq(k in subscopeBucket.s) ==> (k in subscopeBucket.s && subscopeBucket.s[k] == acq(subscopeBucket.s[k])) || acq(subscopeBucket.s[k]).closed
 
 // ---------------------------------------------------------------------------
 // Keys (abstract view; the writer itself is specified in the C05 section)
@@ -1366,3 +1374,15 @@ package tally
 //@ pred kV2(m0 map[string]string, m1 map[string]string) { restrict(kD2(m0, m1), override(valsof(m0), setif(true, dom(m1)), valsof(m1))) }
 //@ pred kkey2(prefix string, m0 map[string]string, m1 map[string]string) { kkey(kacc(prefix, ""), kD2(m0, m1), kV2(m0, m1)) }
 //@ pred kV1(m0 map[string]string) { restrict(dom(m0), valsof(m0)) }
+
+// The duration view of a value specification (used when a specification of one
+// kind is compared or converted to the other kind).
+//@ func (ValueBuckets).AsDurations
+//@   property C20, C03
+//@   allocs
+//@   ensures @durations_elementwise len(result) == len(v) && (forall k int :: 0 <= k && k < len(v) ==> result[k] == f2i(time.Duration, v[k] * float64(time.Second)))
+//@   ensures @spec_untouched forall k int :: 0 <= k && k < len(v) ==> same(v[k], old(v[k]))
+//@   ensures @quiet quiet()
+//@   loop 1 invariant @idx 0 <= rangeindex+1 && rangeindex+1 <= len(values) && len(values) == len(v)
+//@   loop 1 invariant @done_so_far forall k int :: 0 <= k && k <= rangeindex ==> values[k] == f2i(time.Duration, v[k] * float64(time.Second))
+//@   loop 1 invariant @spec_untouched forall k int :: 0 <= k && k < len(v) ==> same(v[k], old(v[k]))
